@@ -175,9 +175,21 @@ fn img_g(i: &Img, g: G) -> Img {
 /// Picture on the panel (framebuffer cells of the window) after drawing `img`
 /// on a display configured with `o`.
 fn picture(model: ModelId, o: Ori, img: &Img) -> Result<Vec<Option<u32>>, String> {
+    picture_via(model, o, None, img)
+}
+
+/// `then`: build with `o`, then switch to that orientation at run time with
+/// set_orientation (the way `display.orientation().rotate(..)` is used in practice).
+fn picture_via(model: ModelId, o: Ori, then: Option<Ori>, img: &Img) -> Result<Vec<Option<u32>>, String> {
     let mut cfg = DispCfg::full(model, Tr::L1S);
     cfg.ori = o;
     let Opened::Ready(mut s) = Session::open(&cfg) else { return Err("init failed".into()) };
+    if let Some(t) = then {
+        let rep = s.step(&Op::SetOrientation(t));
+        if rep.result != CallResult::Ok {
+            return Err(format!("set_orientation: {:?}", rep.result));
+        }
+    }
     let sz = s.rig.size();
     if (sz.0 as usize, sz.1 as usize) != (img.w, img.h) {
         return Err(format!("display reports size {:?} for {}, image is {}x{}", sz, o.name(), img.w, img.h));
@@ -267,6 +279,26 @@ pub fn c15(args: &Args) -> Acc {
                     }
                 }
                 (Err(e), _) | (_, Err(e)) => a.violate("words", idx, "picture/draw-failed", e, case()),
+            }
+            // the same composed orientation reached at run time from the start orientation
+            if !w.is_empty() {
+                let p3 = picture_via(model, o0, Some(composed), &img);
+                let p2 = picture(model, o0, &pre);
+                match (p3, p2) {
+                    (Ok(x), Ok(y)) => {
+                        a.count("pictures_compared_runtime_set_orientation", 1);
+                        if x != y {
+                            a.violate(
+                                "words",
+                                idx,
+                                format!("picture-runtime/{}", w.iter().map(|g| format!("{:?}", g)).collect::<Vec<_>>().join(".")),
+                                format!("display built with {} and switched with set_orientation to {} ({:?} applied): picture differs from the pre-transformed image under {}", o0.name(), composed.name(), w, o0.name()),
+                                case(),
+                            );
+                        }
+                    }
+                    (Err(e), _) | (_, Err(e)) => a.violate("words", idx, "picture-runtime/draw-failed", e, case()),
+                }
             }
             if idx % 1777 == 3 {
                 a.sample(case().with("composed", composed.name()));
@@ -494,47 +526,35 @@ pub fn c16(args: &Args) -> Acc {
         });
         total.merge(acc);
     }
-    // thorough: all 2^32 (top, bottom) pairs per height, lean path (no simulator)
+    // thorough: all 2^32 (top, bottom) pairs per height, lean path: a probe Interface that
+    // keeps only the last command, no simulator, one catch_unwind per 2^16 calls
     if !args.quick() && args.want_stage("exhaustive") {
         let heights = [ModelId::GC9107, ModelId::ST7735s, ModelId::GC9A01, ModelId::ILI9341Rgb565, ModelId::ILI9486Rgb565, ModelId::RM67162, ModelId::Ext65535x1, ModelId::Ext1x65535];
-        let shards = 256u64;
+        let shards = 1024u64;
         let acc = par_cases(heights.len() as u64 * shards, args.threads, args.case, |idx, a| {
             let m = heights[(idx / shards) as usize];
-            let fh = m.fb().1 as u64;
             let shard = idx % shards;
-            let cfg = DispCfg::full(m, if m.supports(Tr::L1S.kind()) { Tr::L1S } else { Tr::L1P8 });
-            let tl = Tl::new(8);
-            let built = crate::rig::build(&cfg, &tl);
-            let Some(mut rig) = built.rig else {
-                a.inconclusive("C16/exhaustive: init failed");
-                return;
+            let r = match m {
+                ModelId::GC9107 => scroll_exhaustive::<mipidsi::models::GC9107>(shard, shards),
+                ModelId::ST7735s => scroll_exhaustive::<mipidsi::models::ST7735s>(shard, shards),
+                ModelId::GC9A01 => scroll_exhaustive::<mipidsi::models::GC9A01>(shard, shards),
+                ModelId::ILI9341Rgb565 => scroll_exhaustive::<mipidsi::models::ILI9341Rgb565>(shard, shards),
+                ModelId::ILI9486Rgb565 => scroll_exhaustive::<mipidsi::models::ILI9486Rgb565>(shard, shards),
+                ModelId::RM67162 => scroll_exhaustive::<mipidsi::models::RM67162>(shard, shards),
+                ModelId::Ext65535x1 => scroll_exhaustive::<crate::rig::Ext<65535, 1, embedded_graphics_core::pixelcolor::Rgb565>>(shard, shards),
+                _ => scroll_exhaustive::<crate::rig::Ext<1, 65535, embedded_graphics_core::pixelcolor::Rgb565>>(shard, shards),
             };
-            tl.take_bus();
-            let mut checked = 0u64;
-            for t in (shard * 256)..((shard + 1) * 256) {
-                for b in 0..=65535u64 {
-                    let r = rig.apply(&Op::ScrollRegion(t as u16, b as u16));
-                    let bus = tl.take_bus();
-                    let ok = r == CallResult::Ok
-                        && bus.len() == 2
-                        && bus[0] == BusEv::Cmd(0x33)
-                        && match &bus[1] {
-                            BusEv::Data(d) if d.len() == 6 => {
-                                let f = |i: usize| (d[i] as u64) << 8 | d[i + 1] as u64;
-                                let (tfa, vsa, bfa) = (f(0), f(2), f(4));
-                                tfa + vsa + bfa == fh && (t + b > fh || (tfa == t && bfa == b))
-                            }
-                            _ => false,
-                        };
-                    if !ok {
-                        a.violate("exhaustive", idx, "scroll_region/exhaustive", format!("height {} top {} bottom {}: result {:?} bus {:?}", fh, t, b, r, bus), J::obj().with("model", m.name()).with("top", t).with("bottom", b));
-                        return;
-                    }
-                    checked += 1;
+            match r {
+                Ok(n) => {
+                    a.count("scroll_region_pairs_exhaustive", n);
+                    a.case(&format!("exh/{:?}/{}", m, shard), true);
+                }
+                Err((t, b, why)) => {
+                    let fh = m.fb().1 as u64;
+                    let class = if t + b <= fh { "fits" } else if t + b <= 65535 { "exceeds-height" } else { "exceeds-u16" };
+                    a.violate("exhaustive", idx, format!("scroll_region/exhaustive[{}]", class), format!("height {} top {} bottom {}: {}", fh, t, b, why), J::obj().with("model", m.name()).with("top", t).with("bottom", b));
                 }
             }
-            a.count("scroll_region_pairs_exhaustive", checked);
-            a.case(&format!("exh/{:?}/{}", m, shard), true);
         });
         total.merge(acc);
         total.notes.insert("exhaustive".into(), J::Str("all 2^32 (top, bottom) pairs for each of the heights 160, 162, 240, 320, 480, 536, 1, 65535".into()));
@@ -548,6 +568,13 @@ pub fn c16(args: &Args) -> Acc {
 const CANARY: u8 = 0xC5;
 
 fn ser<C: DcsCommand>(c: &C) -> Result<(u8, Vec<u8>), String> {
+    match guarded(|| ser_inner(c)) {
+        Ok(r) => r,
+        Err(e) => Err(format!("panicked: {:?}", e)),
+    }
+}
+
+fn ser_inner<C: DcsCommand>(c: &C) -> Result<(u8, Vec<u8>), String> {
     let mut buf = [CANARY; 24];
     // realistic scratch size is 16; give 24 so that an overrun is observable, not UB/panic-only
     let n = c.fill_params_buf(&mut buf[..16]);
@@ -562,11 +589,16 @@ fn ser<C: DcsCommand>(c: &C) -> Result<(u8, Vec<u8>), String> {
     Ok((c.instruction(), buf[..n].to_vec()))
 }
 
+/// what write_command puts on the bus; a panic inside the driver is reported as a wire anomaly
+/// marker so that the comparison fails with a readable message
 fn via_bus<C: DcsCommand>(c: C) -> Vec<BusEv> {
     let tl = Tl::new(8);
     let mut di = L1::<u8, KSerial>::new(&tl);
-    di.write_command(c).unwrap();
-    tl.take_bus()
+    match guarded(|| di.write_command(c)) {
+        Ok(Ok(())) => tl.take_bus(),
+        Ok(Err(_)) => vec![BusEv::Wire(crate::hal::WireAnomaly::SpiOtherOp("write_command returned an error"))],
+        Err(_) => vec![BusEv::Wire(crate::hal::WireAnomaly::SpiOtherOp("write_command panicked"))],
+    }
 }
 
 fn expect_cmd(a: &mut Acc, name: &str, idx: u64, got: Result<(u8, Vec<u8>), String>, bus: Vec<BusEv>, opcode: u8, params: &[u8], case: J) {
@@ -686,8 +718,10 @@ pub fn c18(args: &Args) -> Acc {
                         let params: Vec<u8> = (0..plen).map(|_| rng.next() as u8).collect();
                         let tl = Tl::new(8);
                         let mut di = L1::<u8, KSerial>::new(&tl);
-                        di.write_raw(ins, &params).unwrap();
-                        let bus = tl.take_bus();
+                        let bus = match guarded(|| di.write_raw(ins, &params)) {
+                            Ok(Ok(())) => tl.take_bus(),
+                            _ => vec![BusEv::Wire(crate::hal::WireAnomaly::SpiOtherOp("write_raw panicked or failed"))],
+                        };
                         let mut want = vec![BusEv::Cmd(ins)];
                         if !params.is_empty() {
                             want.push(BusEv::Data(params.iter().map(|b| *b as u16).collect()));
@@ -720,6 +754,7 @@ pub fn c18(args: &Args) -> Acc {
         let per = 65536 / shards;
         let acc = par_cases(shards, args.threads, args.case, |idx, a| {
             let mut buf = [CANARY; 16];
+            let r = guarded(|| {
             for s in (idx * per)..((idx + 1) * per) {
                 let s = s as u16;
                 for e in 0..=65535u16 {
@@ -740,16 +775,28 @@ pub fn c18(args: &Args) -> Acc {
                             && buf[3] == e as u8
                             && buf[4] == CANARY;
                         if !ok {
-                            a.violate(
-                                "address-exhaustive",
-                                idx,
-                                format!("{}/encoding", if which == 0 { "SetColumnAddress" } else { "SetPageAddress" }),
-                                format!("({}, {}): opcode {:#04x} n {} bytes {:02x?}", s, e, op, n, &buf[..5]),
-                                J::obj().with("start", s).with("end", e),
-                            );
-                            return;
+                            return Some((which, s, e, op, n, buf));
                         }
                     }
+                }
+            }
+            None
+            });
+            match r {
+                Ok(None) => {}
+                Ok(Some((which, s, e, op, n, buf))) => {
+                    a.violate(
+                        "address-exhaustive",
+                        idx,
+                        format!("{}/encoding", if which == 0 { "SetColumnAddress" } else { "SetPageAddress" }),
+                        format!("({}, {}): opcode {:#04x} n {} bytes {:02x?}", s, e, op, n, &buf[..5]),
+                        J::obj().with("start", s).with("end", e),
+                    );
+                    return;
+                }
+                Err(c) => {
+                    a.violate("address-exhaustive", idx, "address-command/panic", format!("{:?}", c), J::obj().with("shard", idx));
+                    return;
                 }
             }
             a.count("address_pairs_checked_each_command", per * 65536);
@@ -760,4 +807,87 @@ pub fn c18(args: &Args) -> Acc {
     }
     total.notes.insert("rule".into(), J::Str("case = one command value (or a 2^22-pair shard of the address-command space); distinct by value; all non-trivial".into()));
     total
+}
+
+
+/// Interface that remembers only the last command (for the exhaustive scroll sweep).
+pub struct Probe {
+    op: u8,
+    n: usize,
+    p: [u8; 16],
+    calls: u64,
+}
+impl mipidsi::interface::Interface for Probe {
+    type Word = u8;
+    type Error = core::convert::Infallible;
+    const KIND: mipidsi::interface::InterfaceKind = mipidsi::interface::InterfaceKind::Parallel8Bit;
+    fn send_command(&mut self, command: u8, args: &[u8]) -> Result<(), Self::Error> {
+        self.op = command;
+        self.n = args.len();
+        let k = args.len().min(16);
+        self.p[..k].copy_from_slice(&args[..k]);
+        self.calls += 1;
+        Ok(())
+    }
+    fn send_pixels<const N: usize>(&mut self, _pixels: impl IntoIterator<Item = [u8; N]>) -> Result<(), Self::Error> {
+        self.calls += 1;
+        Ok(())
+    }
+    fn send_repeated_pixel<const N: usize>(&mut self, _pixel: [u8; N], _count: u32) -> Result<(), Self::Error> {
+        self.calls += 1;
+        Ok(())
+    }
+}
+
+struct NoDelay;
+impl embedded_hal::delay::DelayNs for NoDelay {
+    fn delay_ns(&mut self, _: u32) {}
+}
+
+/// All (top, bottom) with top in the shard's range: Ok(pairs checked) or the first failing pair.
+fn scroll_exhaustive<M: crate::rig::MkModel>(shard: u64, shards: u64) -> Result<u64, (u64, u64, String)>
+where
+    M::ColorFormat: mipidsi::interface::InterfacePixelFormat<u8>,
+{
+    let fh = M::FRAMEBUFFER_SIZE.1 as u64;
+    let probe = Probe { op: 0, n: 0, p: [0; 16], calls: 0 };
+    let mut d = match mipidsi::Builder::new(M::mk(), probe).init(&mut NoDelay) {
+        Ok(d) => d,
+        Err(_) => return Err((0, 0, "init failed".into())),
+    };
+    let per = 65536 / shards;
+    let mut n = 0u64;
+    for t in (shard * per)..((shard + 1) * per) {
+        let r = guarded(|| {
+            for b in 0..=65535u64 {
+                // SAFETY (of the accessor): only reads back what the probe recorded
+                let before = unsafe { d.dcs().calls };
+                if d.set_vertical_scroll_region(t as u16, b as u16).is_err() {
+                    return Some((b, "returned an error".to_string()));
+                }
+                let pr = unsafe { d.dcs() };
+                let f = |i: usize| (pr.p[i] as u64) << 8 | pr.p[i + 1] as u64;
+                let (tfa, vsa, bfa) = (f(0), f(2), f(4));
+                let ok = pr.calls == before + 1 && pr.op == 0x33 && pr.n == 6 && tfa + vsa + bfa == fh && (t + b > fh || (tfa == t && bfa == b));
+                if !ok {
+                    return Some((b, format!("{} command(s), last {:#04x} with {} parameter bytes: top {} scroll {} bottom {}", pr.calls - before, pr.op, pr.n, tfa, vsa, bfa)));
+                }
+            }
+            None
+        });
+        match r {
+            Ok(None) => n += 65536,
+            Ok(Some((b, why))) => return Err((t, b, why)),
+            Err(c) => {
+                // locate the panicking pair in this row
+                for b in 0..=65535u64 {
+                    if guarded(|| d.set_vertical_scroll_region(t as u16, b as u16)).is_err() {
+                        return Err((t, b, format!("{:?}", c)));
+                    }
+                }
+                return Err((t, 0, format!("panicked somewhere in this row: {:?}", c)));
+            }
+        }
+    }
+    Ok(n)
 }
